@@ -984,6 +984,13 @@ func (g *FuncGen) trCall(env *Env, x *ECall) Val {
 			return Val{T: fmt.Sprintf("(%s %s %s)", op, s.T, t.T), S: SBool, GT: types.Typ[types.Bool]}
 		}
 		return Val{T: fmt.Sprintf("(%s %s %s)", op, t.T, s.T), S: SBool, GT: types.Typ[types.Bool]}
+	case "textOf":
+		// textOf(b): the string spelled by byte slice b in the current state (what string(b) would return)
+		a := g.tr(env, x.Args[0])
+		if a.S != SSlice || !isByteSlice(a.GT) {
+			g.unsup("textOf needs a []byte")
+		}
+		return Val{T: g.bytesText(g.heapOf(env.cur, c.elemClass(types.Typ[types.Uint8])), a.T), S: SString, GT: types.Typ[types.String]}
 	case "typeof":
 		a := g.tr(env, x.Args[0])
 		return Val{T: fmt.Sprintf("(i_typ %s)", a.T), S: SInt}
